@@ -37,7 +37,13 @@ try:
         if os.path.realpath(f"{src}/{f}") != os.path.realpath(f"{out}/{f}"):
             shutil.copy(f"{src}/{f}", f"{out}/{f}")
     meta = json.load(open(f"{src}/meta.json"))
+    prev = {}
+    try:
+        prev = (json.load(open(f"{out}/meta.json")).get("confirmation") or {}).get("checks") or {}
+    except Exception:
+        pass
     meta.pop("confirmation", None)
+    res["checks"] = {**prev, **res["checks"]}   # verdicts accumulate per check; re-evaluated ones are replaced
     meta["confirmation"] = res
     json.dump(meta, open(f"{out}/meta.json", "w"), indent=1)
     ok = "65 passed" in res["tests"] and d1.returncode != 0 and d0.returncode == 0
